@@ -2159,7 +2159,23 @@ class TextQueryBackend(Backend):
                 ],
                 cond.source,
             )
-            return self.convert_condition(expanded_cond, state)
+            converted = self.convert_condition(expanded_cond, state)
+            # The expanded condition is an OR the enclosing operator doesn't know about: group it
+            # if it was not converted into a single in-expression and the enclosing operator binds
+            # tighter than OR.
+            enclosing = cond.parent_chain_condition_classes()
+            if (
+                isinstance(converted, str)
+                and len(expanded) > 1
+                and not self.decide_convert_condition_as_in_expression(expanded_cond, state)
+                and len(enclosing) > 0
+                and enclosing[0] in self.precedence
+                and self.precedence.index(cast(Any, enclosing[0]))
+                < self.precedence.index(ConditionOR)
+                and self.group_expression is not None
+            ):
+                converted = self.group_expression.format(expr=converted)
+            return converted
 
     def convert_condition_field_compare_op_val(
         self, cond: ConditionFieldEqualsValueExpression, state: ConversionState
